@@ -92,7 +92,7 @@ def run(chk, tier, replay):
     modes = ("f", "m", "b")
     binary = common.build_harness("h_file")
     n = 40 if tier == "quick" else 400
-    cases = rcommon.gen_files(chk, (1, 2, 3, 4), "valid", simulate=n, workers=6)
+    cases = rcommon.gen_files(chk, (1, 2, 3, 4, 5), "valid", simulate=n, workers=8)
     cases += rcommon.gen_files(chk, (1, 2, 3, 4), "unsupported", workers=6)
     with rcommon.Fixtures(cases) as fx:
         lines = [lines_for(i, fx.paths[i], c, modes) for i, c in enumerate(cases)]
